@@ -122,6 +122,8 @@ class Recorder:
             return status
         # stand-in / injected outcome
         allvars = lp.variables()
+        if outcome == 'TimeLimitIncumbent' and res is not None and not res.feasible:
+            outcome = None          # no incumbent can exist on an infeasible problem: natural outcome (as in the specification)
         if outcome is not None:
             ev['injected'] = outcome
             code, sol = {
